@@ -1,6 +1,6 @@
 (* C08 - Results do not depend on buffer size, peak order or other peaks. *)
 From Coq Require Import ZArith List Permutation.
-From BF Require Import Base.Util Model.Blocks Proofs.BlocksP.
+From BF Require Import Base.Util Model.Blocks Model.Pipeline Proofs.BlocksP Proofs.PipelineP.
 Open Scope Z_scope.
 
 (* the loop writes, for every number of peaks n >= 0 and every buffer count bc >= 1 (also bc > n, and the
@@ -51,3 +51,18 @@ Proof.
   rewrite map_length, PeanoNat.Nat.sub_diag. reflexivity.
 Qed.
 Print Assumptions C08_other_peaks_do_not_matter.
+
+(* the models of process_frame_fast / process_frame_full: output entry i is the per-peak function of
+   (frame, pattern, peak i) only -- for every buffer count, every other content of the peak list, every previous
+   content of the output arrays *)
+Theorem C08_fast_per_peak : forall one lg fy fx f c mask peaks n bc out0 i, 0 <= n -> 1 <= bc ->
+  process_frame_fast_model one lg fy fx f c mask peaks n bc out0 i =
+  if inb n i then fast_peak one lg fy fx f c mask (peaks i) else out0 i.
+Proof. exact process_frame_fast_per_peak. Qed.
+Print Assumptions C08_fast_per_peak.
+
+Theorem C08_full_per_peak : forall one lg fy fx f c mask peaks n bc out0 i, 0 <= n -> 1 <= bc ->
+  process_frame_full_model one lg fy fx f c mask peaks n bc out0 i =
+  if inb n i then full_peak one lg fy fx f c mask (peaks i) else out0 i.
+Proof. exact process_frame_full_per_peak. Qed.
+Print Assumptions C08_full_per_peak.
